@@ -204,6 +204,10 @@ type stashRefConst struct {
 }
 
 func (r *stashRefConst) set(v Value) {
+	if (*r.v)[r.idx] == nil {
+		// still in the temporal dead zone: that is reported first
+		panic(errAccessBeforeInit)
+	}
 	if r.strictConst {
 		panic(errAssignToConst)
 	}
